@@ -223,6 +223,12 @@ def items(tier, seed, tx_cls="full", rx_cls="full", pid=PID):
         # dynamic payloads on again for all pipes (documented: global), so payloads travel unpadded
         for pl in (1, 8, 32):
             core.append((link.default_cfg(dyn=False, pl=pl, ack=True, expect_dyn=True, **base), seed, pid, lens))
+    # the full driver's `ack = True` makes pipe 0 dynamic again (documented); on a pipe-0 link both ends then use dynamic lengths
+    for pl in (1, 8, 32):
+        core.append((link.default_cfg(dyn=False, pl=pl, ack=True, expect_dyn=True, pipe=0, **base), seed, pid, lens))
+    # history: the transmitter listened on its own pipe-0 address before (and re-entered its context), see link.build_pair
+    for dyn, pl in ((True, 32), (False, 8)):
+        core.append((link.default_cfg(dyn=dyn, pl=pl, tx_hist="rx0", **base), seed, pid, lens))
     channels = (0, 76, 125) if tier == "quick" else tuple(range(126))
     crcaa = [(2, True)] if lite else [(0, False), (0, True), (1, True), (1, False), (2, True), (2, False)]
     fronts = [(fa, fb)] if lite else [("spidev", "busio"), ("busio", "spidev_pin")]
@@ -240,6 +246,8 @@ def items(tier, seed, tx_cls="full", rx_cls="full", pid=PID):
                                 c.update(front_a=f_a, front_b=f_b)
                                 group.append(link.default_cfg(pipe=pipe, aw=aw, rate=rate, crc=crc, auto_ack=aa,
                                                               channel=ch, dyn=dyn, pl=pl, **c))
+            for aa in ((True,) if lite else (True, False)):
+                group.append(link.default_cfg(pipe=pipe, aw=aw, auto_ack=aa, tx_hist="rx0", **base))
             # split into chunks for load balance
             for i in range(0, len(group), 36):
                 cross.append((group[i:i + 36], seed, pid))
